@@ -791,6 +791,12 @@ def main(tier, replay=None):
     if replay:
         return do_replay(run, replay)
     proof_ok = run.proof_stage()
+    # second tie (structural): segment.py, CustomTransferMap.from_merging_elements and Element.track are re-translated from
+    # REPO's source text and proved equal to Lattice/{Track,Merge,Filter}.v / Beam/Moments.v (Gen/SegGenEquiv.v)
+    import translate_stage
+    trs = translate_stage.translator_obligation_seg(run)
+    if trs["status"] != "ok":
+        run.notes.append("translator obligation (segment): " + json.dumps(translate_stage.replay_fields_seg(trs))[:600])
     if not proof_ok:
         run.notes.append(run.proof_problem)
 
@@ -838,6 +844,9 @@ def main(tier, replay=None):
             beam, o = st_cases[st_fail[0]]
             run.violation({"kind": "correspondence", "broken": "Coq model Beam/Stats.v (st_check) disagrees with the beam statistics on this case",
                            "beam": beam, "observed": o, "n_disagreeing": len(st_fail)}, no_input=True)
+    elif trs["status"] != "ok":
+        # the structural source no longer translates to the proved model; none of this run's oracles found a failing input
+        run.violation(translate_stage.replay_fields_seg(trs), no_input=True)
     elif not proof_ok:
         run.violation({"kind": "proof", "broken": run.proof_problem}, no_input=True)
     return run.finish("proof")
